@@ -50,6 +50,7 @@ type Contract struct {
 	File       string
 	Line       int
 	Requires   []Clause
+	Assumes    []Clause // input well-formedness assumed at entry, not demanded of callers
 	Ensures    []Clause
 	Panics     []string
 	HasPanics  bool
@@ -197,6 +198,15 @@ func (w *World) parseContractFile(path string) error {
 			}
 			curIface.Methods[fs[0]] = m
 			cur = &m.Contract
+		case "assumes":
+			// an ASSUMPTION about the function's inputs that callers are not asked to prove
+			// (well-formedness of data built outside the contracts); listed in evidence
+			if cur == nil {
+				return fail("%s outside func", kw)
+			}
+			lbl, txt := splitLabel(rest)
+			cur.Assumes = append(cur.Assumes, Clause{Label: lbl, Text: txt, File: path, Line: lineNo})
+			lastText = &cur.Assumes[len(cur.Assumes)-1].Text
 		case "requires", "ensures":
 			if cur == nil {
 				return fail("%s outside func", kw)
